@@ -131,6 +131,10 @@ pub fn build_sut(s: &ReqSpec) -> Option<Built> {
             let version = version_str(f.version());
             let target = f.uri().path_and_query().map(|p| p.as_str().to_string()).unwrap_or_else(|| "/".into());
             let host = f.uri().host().unwrap_or("").to_string();
+            let hostport = match f.uri().port_u16() {
+                Some(p) => format!("{}:{}", host, p),
+                None => host.clone(),
+            };
             let mut orig: Vec<(String, Vec<u8>)> = f.headers().iter().map(|(k, v)| (k.as_str().to_string(), v.as_bytes().to_vec())).collect();
             if !s.hops.is_empty() {
                 orig.retain(|(n, _)| !SUPPRESSED.contains(&n.as_str()));
@@ -145,16 +149,20 @@ pub fn build_sut(s: &ReqSpec) -> Option<Built> {
                 f.send_body_despite_method();
             }
             let rq = json!({"method": method, "version": version, "api": "flow", "despite": s.despite, "target": target,
-                            "hosthex": hex(host.as_bytes()), "added": hdr_json(&s.added), "orig": hdr_json(&orig), "depth": s.hops.len()});
+                            "hosthex": hex(host.as_bytes()), "hostporthex": hex(hostport.as_bytes()), "added": hdr_json(&s.added), "orig": hdr_json(&orig), "depth": s.hops.len()});
             Some(Built { sut: Sut::Flow(f.proceed()), rq })
         }
         api => {
             let req = build_request(s);
             let target = req.uri().path_and_query().map(|p| p.as_str().to_string()).unwrap_or_else(|| "/".into());
             let host = req.uri().host().unwrap_or("").to_string();
+            let hostport = match req.uri().port_u16() {
+                Some(p) => format!("{}:{}", host, p),
+                None => host.clone(),
+            };
             let orig: Vec<(String, Vec<u8>)> = req.headers().iter().map(|(k, v)| (k.as_str().to_string(), v.as_bytes().to_vec())).collect();
             let rq = json!({"method": s.method, "version": s.version, "api": api, "despite": false, "target": target,
-                            "hosthex": hex(host.as_bytes()), "added": [], "orig": hdr_json(&orig), "depth": 0});
+                            "hosthex": hex(host.as_bytes()), "hostporthex": hex(hostport.as_bytes()), "added": [], "orig": hdr_json(&orig), "depth": 0});
             let sut = if api == "call_with" { Sut::CallWith(Call::with_body(req).ok()?) } else { Sut::CallWithout(Call::without_body(req).ok()?) };
             Some(Built { sut, rq })
         }
@@ -283,10 +291,20 @@ pub fn exercise(t: &mut Tracer, s: &ReqSpec, rng: &mut StdRng, nsched: usize, ch
     };
     // reference run with one big buffer
     let mut big = vec![0u8; 1 << 16];
-    let reference: Vec<u8> = match b.sut.write(&mut big) {
-        Some(Ok(n)) => big[..n].to_vec(),
-        _ => vec![],
-    };
+    let mut reference: Vec<u8> = vec![];
+    for _ in 0..400 {
+        match b.sut.write(&mut big) {
+            Some(Ok(n)) => reference.extend(&big[..n]),
+            _ => {
+                reference.clear();
+                break;
+            }
+        }
+        // the head ends with the empty line (for Call<WithBody> a further empty write would end the body)
+        if reference.ends_with(b"\r\n\r\n") || b.sut.ready() == Some(true) {
+            break;
+        }
+    }
     let lens = lex_head(&reference).lens;
     t.case(json!({"ev":"case","comp":"sendhead","rq":b.rq,"lens":lens,"chk_orig":chk_orig,"note":note}));
     let rejected = reference.is_empty();
